@@ -343,8 +343,9 @@ fn valid_prql_ident() -> &'static Regex {
     static VALID_PRQL_IDENT: OnceLock<Regex> = OnceLock::new();
     VALID_PRQL_IDENT.get_or_init(|| {
         // Pomsky expression (regex is to Pomsky what SQL is to PRQL):
-        // ^ ('*' | [ascii_alpha '_$'] [ascii_alpha ascii_digit '_$']* ) $
-        Regex::new(r"^(?:\*|[a-zA-Z_$][a-zA-Z0-9_$]*)$").unwrap()
+        // ^ ('*' | [ascii_alpha '_'] [ascii_alpha ascii_digit '_']* ) $
+        // (not `$`: the lexer reads `$x` as a parameter)
+        Regex::new(r"^(?:\*|[a-zA-Z_][a-zA-Z0-9_]*)$").unwrap()
     })
 }
 
